@@ -18,9 +18,9 @@ BUILD = f"{VERIF}/build"
 _TAG = "" if REPO == "/repo" else "-" + hashlib.sha1(REPO.encode()).hexdigest()[:8]
 RB = f"{BUILD}/repo-asan{_TAG}"
 HB = f"{BUILD}/h{_TAG}"
-EVID = f"{VERIF}/evidence" if not _TAG else f"{BUILD}/evidence{_TAG}"
+EVID = os.environ.get("VV_EVID_DIR") or (f"{VERIF}/evidence" if not _TAG else f"{BUILD}/evidence{_TAG}")  # VV_EVID_DIR: sensitivity runs on a patched /repo only
 WORK = f"{BUILD}/work"
-FOUND = f"{VERIF}/replays/found"
+FOUND = os.environ.get("VV_FOUND_DIR") or f"{VERIF}/replays/found"
 
 SAN = "-fsanitize=address,undefined -fno-sanitize-recover=undefined"
 # VV_OPT: development aid (soundness experiment "same code, other code generation"); registered commands never set it
